@@ -432,7 +432,36 @@ Definition mount_openwrite (p mode : str) (d : option bytes) : M tstate unit :=
   if negb (mode_valid_bin mode) then crash ValueError
   else route p (fun q => mem_openwrite q mode d).
 
-Definition mount_scandir (p : str) : M tstate (list info) := route p mem_scandir.
+(* MountFS.scandir (/repo 75d0617): delegated like every call; when the DEFAULT filesystem answers and something is
+   mounted, every directory entry whose path forcedir(<dir key> + name) is a mount key is replaced by
+   self.getinfo(<dir key> + name) - the mounted root's info under the mount point's name (_scan_mount_points) *)
+Definition is_mount_key (st : tstate) (k : str) : bool :=
+  existsb (fun m => str_eqb (fst m) k) (t_mounts st).
+
+Fixpoint scan_mount_points (getinfo : str -> M tstate info) (d : str) (l : list info) : M tstate (list info) :=
+  match l with
+  | [] => ret []
+  | i :: r =>
+    x <- (fun st => if i_isdir i && is_mount_key st (forcedir (d ++ i_name i))
+                    then getinfo (d ++ i_name i) st else (st, Ok i)) ;;
+    xs <- scan_mount_points getinfo d r ;;
+    ret (x :: xs)
+  end.
+
+Definition mount_scandir (p : str) : M tstate (list info) :=
+  fun st =>
+    match mount_delegate (mounts_of st) p with
+    | Ok (Some (i, rel)) => on_mount i (mem_scandir rel) st
+    | Ok None =>
+      match t_mounts st with
+      | [] => on_default (mem_scandir p) st
+      | _ => (d <- lift (mount_key p) ;;
+              infos <- on_default (mem_scandir p) ;;
+              scan_mount_points mount_getinfo d infos) st
+      end
+    | Err e => (st, Err e)
+    | Crash k => (st, Crash k)
+    end.
 Definition mount_remove (p : str) : M tstate unit := route p mem_remove.
 
 Definition mount_fuel (st : tstate) : nat := tree_size (t_default st) + trees_size (t_mounts st).
